@@ -12,14 +12,11 @@ structure PRInv (s : PR α) : Prop where
   nodup : (dkeys s.dict).Nodup
   nonempty : ∀ e ∈ s.dict, e.2 ≠ []
 
-/-- side condition on a `ParseResults` argument of `+=` / `extend` in state `s`: it is a well-formed
-    object, and it is truthy or carries no list-all name that `s` lacks (see `iadd_refines_iff`) -/
-def OtherOk (s o : PR α) : Prop :=
-  PRInv o ∧ (o.truthy = true ∨ ∀ n ∈ o.all, n ∈ s.all)
-
-def OpOk (s : PR α) : Op α (PR α) → Prop
-  | .iadd o => OtherOk s o
-  | .extendPR o => OtherOk s o
+/-- the only side condition of a history: a `ParseResults` *argument* of `+=` / `extend` is itself a well-formed
+    object (every object is: `prinv_of_ctor`, `prinv_step`) -/
+def OpOk : Op α (PR α) → Prop
+  | .iadd o => PRInv o
+  | .extendPR o => PRInv o
   | _ => True
 
 theorem Abs.ext' {a b : Abs α} (h1 : a.toks = b.toks) (h2 : a.order = b.order)
@@ -300,7 +297,7 @@ theorem iadd_eq (s o : PR α) :
     iadd s o = if o.truthy then
         { iaddNames s o with toks := s.toks ++ o.toks,
                              all := s.all ++ o.all.filter (fun n => n ∉ s.all) }
-      else s := by
+      else { s with all := s.all ++ o.all.filter (fun n => n ∉ s.all) } := by
   unfold iadd
   cases ht : o.truthy
   · simp
@@ -340,25 +337,27 @@ theorem falsy_abs {o : PR α} (h : o.truthy = false) :
   simp only [PR.truthy, Bool.or_eq_false_iff, Bool.not_eq_false', List.isEmpty_iff] at h
   refine ⟨h.1, by simp [abs, dkeys, h.2], fun k => by simp [abs, h.2, dget]⟩
 
-/-- `+=` is the merge, provided `o` is well formed and (truthy or carries no new list-all name) -/
-theorem abs_iadd (s o : PR α) (hok : OtherOk s o) : abs (iadd s o) = (abs s).merge (abs o) := by
-  obtain ⟨ho, hla⟩ := hok
+theorem la_union (s o : PR α) (k : String) :
+    decide (k ∈ s.all ++ o.all.filter (fun n => n ∉ s.all)) = (decide (k ∈ s.all) || decide (k ∈ o.all)) := by
+  simp only [List.mem_append, List.mem_filter, decide_eq_true_eq]
+  by_cases h1 : k ∈ s.all <;> by_cases h2 : k ∈ o.all <;> simp [h1, h2]
+
+/-- `+=` is the merge of list and multimap, for every well-formed argument (empty or not) -/
+theorem abs_iadd (s o : PR α) (ho : PRInv o) : abs (iadd s o) = (abs s).merge (abs o) := by
   rw [iadd_eq]
   cases ht : o.truthy
   · obtain ⟨h1, h2, h3⟩ := falsy_abs ht
-    have hall : ∀ n ∈ o.all, n ∈ s.all := by
-      rcases hla with h | h
-      · rw [ht] at h; exact absurd h (by simp)
-      · exact h
     apply Abs.ext'
-    · simp [Abs.merge, h1]
-    · simp [Abs.merge, h2]
-    · intro k; simp [Abs.merge, h3]
+    · show s.toks = (abs s).toks ++ (abs o).toks
+      rw [h1]; simp [abs]
+    · show dkeys s.dict = (abs s).order ++ (abs o).order.filter _
+      rw [h2]; simp [abs]
     · intro k
-      simp only [Abs.merge, abs]
-      by_cases hk : k ∈ o.all
-      · simp [hall k hk]
-      · simp [hk]
+      show (abs s).vals k = (abs s).vals k ++ (abs o).vals k
+      rw [h3]; simp
+    · intro k
+      simp only [Abs.merge, abs, Bool.false_eq_true, if_false]
+      exact la_union s o k
   · simp only [if_true]
     have := abs_iaddNames s o ho
     apply Abs.ext'
@@ -369,8 +368,8 @@ theorem abs_iadd (s o : PR α) (hok : OtherOk s o) : abs (iadd s o) = (abs s).me
       have h2 := congrFun (congrArg Abs.vals this) k
       simpa [Abs.merge, abs] using h2
     · intro k
-      simp only [Abs.merge, abs, List.mem_append, List.mem_filter, decide_eq_true_eq]
-      by_cases h1 : k ∈ s.all <;> by_cases h2 : k ∈ o.all <;> simp [h1, h2]
+      simp only [Abs.merge, abs]
+      exact la_union s o k
 
 theorem prinv_iadd {s o : PR α} (h : PRInv s) : PRInv (iadd s o) := by
   rw [iadd_eq]
@@ -378,7 +377,7 @@ theorem prinv_iadd {s o : PR α} (h : PRInv s) : PRInv (iadd s o) := by
   · have := prinv_foldl_setOcc h
       (o.dict.flatMap (fun e => e.2.map (fun v => (e.1, (v.1, if v.2 < 0 then (s.toks.length : Int) else v.2 + (s.toks.length : Int))))))
     exact ⟨this.nodup, this.nonempty⟩
-  · exact h
+  · exact ⟨h.nodup, h.nonempty⟩
 
 /-! ### `del` / `insert` on the token list -/
 
